@@ -315,6 +315,19 @@ func faultCases(out *lib.Out, r *lib.Rng, bi int, b *block, others []*block, tho
 	for _, e := range exts {
 		relink(append(append([]byte(nil), data...), e...))
 	}
+	// the link of a PREFIX of the stream (what a decoder that stops early would have pulled): the
+	// item plus one byte of a longer tail
+	for _, e := range exts {
+		if len(e) < 2 {
+			continue
+		}
+		m := append(append([]byte(nil), data...), e...)
+		if c, err := b.proto.LP().Prefix.Sum(m[:len(data)+1]); err == nil {
+			for _, f := range forms {
+				loadCase(out, id("prelink", f), f, false, c.KeyString(), one(m), "eof")
+			}
+		}
+	}
 	// byte-at-a-time delivery, and a corrupted block delivered in chunks
 	var cuts []int
 	for c := 1; c < len(data); c++ {
